@@ -38,7 +38,7 @@ CLAIMED = {
          "DESIGN.md §6 C08"),
  "C09": ("proof",
          "Lean 4 laws of one replacement pass (untouched text, exact replacement of an occurrence, occurrence = substring, token forms) over Model/Subst.lean + primitive correspondence (str.replace, apply_environment, WSREGEX) + pipeline correspondence of every expanded text + tokenizer-based simultaneous-substitution monitor on the real texts",
-         "The per-pass laws are proved for all strings; 'pipeline = one simultaneous substitution' and 'no defined token survives' are decided on the documented domain by the independent oracle against the real texts (hundreds of specifications per run) and by comparing every text with the model; partial: the pipeline-level equation is not yet a Lean theorem.",
+         "The per-pass laws are proved for all strings; the text of every instance the expansion places is proved to be the step's text after the row's table of passes and, for $-free table entries over a text of $-free literals and tokens, exactly one simultaneous substitution (C09_instance_text_simultaneous, over Model/Expand); the environment stage (labels before dependencies before variables) has its own theorems over Model/Env; values that contain '$' are outside the theorem's domain and are decided by the independent oracle against the real texts (hundreds of specifications per run) and by comparing every text with the model.",
          "Trusted: Lean kernel; standard axioms; the study-level correspondence harness; Python str()/yaml/md5 (oracle inputs to the model); re semantics of the two regular expressions modelled (ASCII \\w); names are kept ASCII by the generators.",
          "DESIGN.md §6 C09"),
  "C10": ("proof",
